@@ -695,8 +695,8 @@ pub fn run(ctx: &Ctx) {
     let n = idx.len() as u64;
     indexed_stage(ctx, "all-schedules-small-programs", n, |i| progs[idx[i as usize]].clone(), |p, local| run_all_schedules(p, local, 20_000));
     ctx.extra("exhaustive_stage", json!({"small_programs_total": progs.len(), "explored_this_run": n, "all_schedules_per_program": true, "exhaustive": stride == 1}));
-    random_stage(ctx, "random-programs", ctx.tier.pick(6_000, 150_000), program_strategy, |p: &Program, local| run_program(p, false, local));
-    random_stage(ctx, "random-programs-fair-lock", ctx.tier.pick(3_000, 60_000), program_strategy, |p: &Program, local| run_program(p, true, local));
+    random_stage(ctx, "random-programs", ctx.tier.pick(6_000, 500_000), program_strategy, |p: &Program, local| run_program(p, false, local));
+    random_stage(ctx, "random-programs-fair-lock", ctx.tier.pick(3_000, 150_000), program_strategy, |p: &Program, local| run_program(p, true, local));
 }
 
 pub fn replay(case: &Value) -> Check {
